@@ -43,12 +43,12 @@ type Case struct {
 // decoded is what the independent reference decoder extracts.
 type decoded struct {
 	version, pt, e, s, pn uint8
-	msgType              uint8
-	length               uint16
-	teid                 uint32
-	exts                 [][]byte // content of each extension header (without length and next-type octets), with type
-	extTypes             []uint8
-	payload              []byte
+	msgType               uint8
+	length                uint16
+	teid                  uint32
+	exts                  [][]byte // content of each extension header (without length and next-type octets), with type
+	extTypes              []uint8
+	payload               []byte
 }
 
 // refDecode parses a GTPv1-U packet per TS 29.281 section 5.
@@ -110,7 +110,17 @@ func refDecode(b []byte) (*decoded, error) {
 	return d, nil
 }
 
-func check(c Case) *vcore.Violation {
+// check evaluates one case; a panic inside Len / Encode on a buffer of exactly Len() octets is a violation, not a harness error.
+func check(c Case) (v *vcore.Violation) {
+	defer func() {
+		if p := recover(); p != nil {
+			v = vcore.Violatef("panic", "encoding teid %#x, ext %v (pdu type %d, qfi %d), %d payload octets into a buffer of Len() octets panics: %v", c.TEID, c.WithExt, c.PDUType, c.QFI, len(c.Payload), p)
+		}
+	}()
+	return check1(c)
+}
+
+func check1(c Case) *vcore.Violation {
 	msg := gtpv1.Message{
 		Flags:   0x34,
 		Type:    gtpv1.MsgTypeTPDU,
@@ -219,6 +229,15 @@ func payload(n int, salt byte) []byte {
 	return p
 }
 
+func safeWrite(f func() error) (err error) {
+	defer func() {
+		if p := recover(); p != nil {
+			err = fmt.Errorf("panic: %v", p)
+		}
+	}()
+	return f()
+}
+
 // writePacket drives the real Gtp5g.WritePacket (the assembly site for buffered packets) over a loopback socket.
 func writePacket(t *testing.T) {
 	n, err := stack.ReserveNet(stack.Net2FromEnv(114))
@@ -247,7 +266,7 @@ func writePacket(t *testing.T) {
 				c := Case{WithExt: qfi >= 0, QFI: uint8(max(qfi, 0)), TEID: teid, Payload: pl}
 				account(c)
 				vcore.E.Class("through_WritePacket")
-				if err := d.G.WritePacket(far, qer, pl); err != nil {
+				if err := safeWrite(func() error { return d.G.WritePacket(far, qer, pl) }); err != nil {
 					vcore.Report(t, vcore.Violatef("writepacket-error", "WritePacket: %v", err), c)
 					continue
 				}
